@@ -72,19 +72,7 @@ class Engine(object):
                 self.truncated = True
                 break
             prefix = work.pop()
-            self.decisions = list(prefix)
-            self.pos = 0
-            self.solver = z3.Solver()
-            self.solver.set('timeout', min(self.z3_first_ms, self.solver_timeout_ms))
-            self.pending = []
-            self.ticks = 0
-            self.nfresh = 0
-            self.uf_cache = {}
-            self.bounds = {}
-            self.path_notes = []
-            self.math_calls = []
-            self.exact_floats = False
-            self.float_bound = 'absolute'
+            self.reset_path(prefix)
             CURRENT = self
             try:
                 try:
@@ -103,6 +91,9 @@ class Engine(object):
                     out = PathResult(None, 'infeasible')
                 except CaseDeadline:
                     self.truncated = True
+                    out = PathResult(list(self.decisions), 'deadline', None, 'case deadline reached inside this path')
+                    self.stats['paths'] += 1
+                    results.append(out)
                     break
                 except RecursionError as e:
                     out = PathResult(None, 'unmodelled', None, 'RecursionError in harness: %s' % e)
@@ -113,6 +104,22 @@ class Engine(object):
             results.append(out)
             work.extend(self.pending)
         return results
+
+    def reset_path(self, prefix):
+        self.decisions = list(prefix)
+        self.pos = 0
+        self.solver = z3.Solver()
+        self.solver.set('timeout', min(self.z3_first_ms, self.solver_timeout_ms))
+        self.pending = []
+        self.ticks = 0
+        self.nfresh = 0
+        self.uf_cache = {}
+        self.bounds = {}
+        self.path_notes = []
+        self.math_calls = []
+        self.exact_floats = False
+        self.float_bound = 'absolute'
+        self._model = None
 
     # ------------------------------------------------------------------ solver
     def check(self, *assumptions):
